@@ -23,7 +23,7 @@ FORMATS_EN = ['auto', 'auto_extended', 'deriv', 'xml', 'conll', 'html', 'prolog'
 FORMATS_JA = ['auto', 'deriv', 'ja', 'conll', 'html', 'jigg_xml', 'ptb', 'json', 'prolog']
 PROLOG_EN = {'fa': 'fa', 'ba': 'ba', 'fx': 'fc', 'fc': 'fc', 'bx': 'bxc', 'gfc': 'gfc', 'gbx': 'gbx', 'rp': 'rp', 'conj': 'conj'}
 PROLOG_JA = {'SSEQ': 'sseq', '>': 'fa', '<': 'ba', '>B': 'fc', '<B1': 'bc1', '<B2': 'bc2', '<B3': 'bc3', '<B4': 'bc4', '>Bx1': 'fx1', '>Bx2': 'fx2',
-             '>Bx3': 'fx3', 'ADNext': 'adnext', 'ADNint': 'adnint', 'ADV0': 'adv0', 'ADV1': 'adv1', 'ADV2': 'adv2'}
+             '>Bx3': 'fx3', 'ADNext': 'adnext', 'ADNint': 'adnint', 'ADV0': 'adv0', 'ADV1': 'adv1', 'ADV2': 'adv2', 'OTHER': 'other'}
 
 
 def set_lang(lang):
@@ -155,7 +155,9 @@ def check_formats(st, nbest, lang, formats, base, count=True, skip=()):
 
     def bad(fmt, what, **kw):
         kind = kw.pop('kind', 'mismatch')
-        st.violation(f'{fmt}/{kind}/{"+".join(tclass) or "plain"}', f'{fmt}: {what}', fmt=fmt, kind=kind, token_classes=tclass, special_tokens=special, **dict(base, **kw))
+        detail = kw.pop('detail', '')
+        st.violation(f'{lang}/{fmt}/{kind}{"/" + detail if detail else ""}/{"+".join(tclass) or "plain"}', f'{lang} {fmt}: {what}', fmt=fmt, kind=kind, detail=detail,
+                     token_classes=tclass, special_tokens=special, **dict(base, **kw))
 
     for fmt in formats:
         if count:
@@ -163,7 +165,7 @@ def check_formats(st, nbest, lang, formats, base, count=True, skip=()):
         try:
             text = render(copy.deepcopy(nbest) if fmt == 'jigg_xml' else nbest, fmt)
         except Exception as e:
-            bad(fmt, f'rendering raised {e!r}', kind='render_error')
+            bad(fmt, f'rendering raised {e!r}', kind='render_error', detail=f'{type(e).__name__}:{str(e)[:40]}')
             continue
         try:
             if fmt in ('auto', 'auto_extended', 'ptb', 'ja', 'deriv'):
